@@ -576,6 +576,9 @@ func replayCase(idx int, c Case, seed int64) Result {
 		return fail("C10/mismatch/projection", perr)
 	}
 	if wantReject {
+		if strings.HasPrefix(c.Fault, "v0/") { // a single-fault mutation of a legacy (no configVersion) document
+			return fail("C10/v0-accepted/"+strings.TrimPrefix(c.Fault, "v0/"), fmt.Sprintf("expected rejection of a legacy document (%s), but it was loaded as %s", c.Why, short(js(py), 700)))
+		}
 		return fail("C10/accepted/"+classOf(c), fmt.Sprintf("expected rejection (%s), but the document was loaded as %s", c.Why, short(js(py), 700)))
 	}
 	if dp, d := diff("", norm(py), norm(pj)); dp != "" {
